@@ -816,7 +816,9 @@ fn law_case(cx: &mut Cx, t: &Tera, rng: &mut Rng) {
         Err(e) => fail!("type-tests-error", drp.clone(), "type tests failed on {dv:?}: {e}"),
     }
     // ---- range: exactly the progression asked for, or an error
-    let (s, e, st): (i128, i128, i128) = match rng.below(6) {
+    let (s, e, st): (i128, i128, i128) = match if rng.chance(1, 400) { 6 } else { rng.below(6) } {
+        // exactly at the size cap: the largest range that must still be produced
+        6 => *rng.pick(&[(0i128, 100_000i128, 1i128), (0, 99_999, 1), (5, 200_005, 2), (0, -100_000, -1), (100_000, 0, -1)]),
         0 => (rng.range(-20, 20) as i128, rng.range(-20, 40) as i128, rng.range(-5, 5) as i128),
         1 => (0, rng.range(0, 300) as i128, 1),
         2 => (i128::MAX - rng.below(10) as i128, i128::MAX, rng.range(1, 3) as i128),
@@ -851,6 +853,14 @@ fn law_case(cx: &mut Cx, t: &Tera, rng: &mut Rng) {
                 if o != exp {
                     fail!("range-progression", rrp.clone(), "range(start={s}, end={e}, step_by={st}) rendered {}, expected {}", clip(&o, 120), clip(&exp, 120));
                 }
+            } else if n <= 100_000 {
+                // long ranges: length, first and last element
+                let got_n = o.matches(", ").count() as u128 + 1;
+                let last = (s + ((n - 1) as i128) * st).to_string();
+                if got_n != n || !o.starts_with(&format!("[{s},")) || !o.ends_with(&format!(" {last}]")) {
+                    fail!("range-progression", rrp.clone(), "range(start={s}, end={e}, step_by={st}) has {got_n} elements ({} … {}), expected {n} from {s} to {last}", clip(&o, 30), &o[o.len().saturating_sub(30)..]);
+                }
+                cx.count("ranges_at_the_size_cap", 1);
             }
         }
         (Err(msg), Some(n)) => {
